@@ -36,7 +36,8 @@ TRUSTED = [
     "display orientation of a tile format: FITS tiles are bottom-up (row 0 at the bottom), npy/png top-down",
 ]
 ASSUMPTIONS = [
-    "tile_image writes into a fresh (empty) pyramid directory",
+    "tile_image writes into an empty pyramid directory, or into one that holds an earlier tiling of an image of the same size "
+    "(cases with prior=true); directories holding tilings of other sizes are outside the property (it speaks of the written tiles)",
     "integer modes (U8/I16/I32) have no mask representation: 'undefined' is the value 0, as in the code",
     "an RGBA pixel with alpha 0 is undefined whatever its colour bytes are",
     "sub-images are taken of a tiling built by the constructor (compute_for_subimage of a sub-tiling is outside the property)",
@@ -375,6 +376,14 @@ def punch_holes(arr, mode, holes):
     return arr
 
 
+def punch_infs(arr, mode, infs):
+    """Infinite sample values (defined data, not a mask) in the given rectangles."""
+    for i, (y0, y1, x0, x1) in enumerate(infs):
+        if mode in ("F32", "F64", "F16x3"):
+            arr[y0:y1, x0:x1] = np.inf if i % 2 == 0 else -np.inf
+    return arr
+
+
 def undefined_tile(mode):
     if mode in ("RGB", "RGBA"):
         return np.zeros((256, 256, 4), dtype=np.uint8)
@@ -466,7 +475,7 @@ def run_pixel_case(case, base):
     from toasty.pyramid import PyramidIO, Pos
     from toasty.study import StudyTiling
     W, H, sub, fmt, mode, holes = (case["w"], case["h"], case["sub"], case["fmt"], case["mode"], case["holes"])
-    parent = punch_holes(make_content(mode, H, W), mode, holes)
+    parent = punch_holes(punch_infs(make_content(mode, H, W), mode, case.get("infs") or []), mode, holes)
     if sub is None:
         src = parent
     else:
@@ -481,6 +490,11 @@ def run_pixel_case(case, base):
             t = StudyTiling(W, H)
             if sub is not None:
                 t = t.compute_for_subimage(*sub)
+            if case.get("prior"):
+                # the directory already holds an earlier version of the same study, defined everywhere:
+                # tiles that the new version leaves entirely undefined must not survive
+                prior = make_content(mode, src.shape[0], src.shape[1], r0=3, c0=5)
+                t.tile_image(Image.from_array(prior), pio)
             t.tile_image(Image.from_array(src.copy()), pio)
             files, other = list_tile_files(base, fmt) if os.path.isdir(base) else (set(), [])
             tiles, pio_tiles = {}, {}
@@ -631,12 +645,37 @@ def gen_pixel_cases(rng, tier):
             w, h = rng.choice(PIX_SIZES[2:9]), rng.choice(PIX_SIZES[2:9])
             cases.append(dict(w=w, h=h, sub=list(rand_sub(rng, w, h)), fmt=fmt, mode=mode,
                               holes=gen_holes(rng, mode, w, h)))
+    # infinite sample values are data: a tile whose part of the image holds only +-inf (and NaN) is still written
+    for c in cases:
+        c["infs"] = []
+        if c["mode"] in ("F32", "F64", "F16x3") and rng.random() < 0.5:
+            W, H = c["w"], c["h"]
+            p2 = smallest_square(W, H)
+            gx0, gy0 = (p2 - W) // 2, (p2 - H) // 2
+            tx = rng.randint(gx0 // 256, (gx0 + W - 1) // 256)
+            ty = rng.randint(gy0 // 256, (gy0 + H - 1) // 256)
+            x0, x1 = max(0, 256 * tx - gx0), min(W, 256 * tx + 256 - gx0)
+            y0, y1 = max(0, 256 * ty - gy0), min(H, 256 * ty + 256 - gy0)
+            c["infs"].append((y0, y1, x0, x1))           # the whole part of the image inside one tile
+            if rng.random() < 0.5 and y1 - y0 > 1:
+                c["holes"] = list(c["holes"]) + [(y0, (y0 + y1) // 2, x0, x1)]   # half of it NaN on top
+            if rng.random() < 0.5:
+                yy, xx = rng.randint(0, H - 1), rng.randint(0, W - 1)
+                c["infs"].append((yy, rng.randint(yy + 1, H), xx, rng.randint(xx + 1, W)))
+    # histories: every other case with undefined regions re-tiles a directory that already holds
+    # an earlier, fully defined version of the same study
+    k = 0
+    for c in cases:
+        if c["holes"]:
+            c["prior"] = (k % 2 == 0)
+            k += 1
     return cases
 
 
 def pixel_case_json(c):
     return dict(kind="pixels", w=c["w"], h=c["h"], sub=c["sub"], fmt=c["fmt"], mode=c["mode"],
-                holes=[list(hh) for hh in c["holes"]])
+                holes=[list(hh) for hh in c["holes"]], prior=bool(c.get("prior")),
+                infs=[list(hh) for hh in c.get("infs") or []])
 
 
 def check_pixel_cases(cases, V, stats):
@@ -656,6 +695,7 @@ def check_pixel_cases(cases, V, stats):
         res = run_pixel_case(c, base)
         why = reassembly_predicate(c, res)
         stats["pixel_cases"] += 1
+        stats["retiled_over_earlier_version"] = stats.get("retiled_over_earlier_version", 0) + int(bool(c.get("prior")))
         stats["tiles_compared"] += len(res["tiles"])
         stats["pixels_compared"] += 65536 * len(res["tiles"])
         stats["fmt_mode"][f"{c['fmt']}/{mode}"] = stats["fmt_mode"].get(f"{c['fmt']}/{mode}", 0) + 1
@@ -720,7 +760,8 @@ def run(ctx, V):
             pcases = pcases[:3]
         elif c.get("kind") == "pixels":
             pcases = [dict(w=c["w"], h=c["h"], sub=c["sub"], fmt=c["fmt"], mode=c["mode"],
-                           holes=[tuple(hh) for hh in c["holes"]])] + pcases[:3]
+                           holes=[tuple(hh) for hh in c["holes"]], prior=bool(c.get("prior")),
+                           infs=[tuple(hh) for hh in c.get("infs") or []])] + pcases[:3]
             gcases = gcases[:5]
 
     # geometry
